@@ -57,12 +57,28 @@ SKIP_PRED = {  # skip_serializing_if path -> skind
 DEFAULT_FN = {  # default = "path" -> JSON value the function returns
     "ruma_common::serde::default_true": True, "default_true": True,
     "default_room_version_id": "1",
+    "default_power_level": 50,
+}
+DESER_WITH = {  # deserialize_with = "path": (field type as written -> modelled type)
+    "ruma_common::serde::deserialize_v1_powerlevel": "intlax",
+    "ruma_common::serde::btreemap_deserialize_v1_powerlevel_values": "map-intlax",
+}
+SKIP_EQ_FN = {  # skip predicates that compare with a constant: path -> JSON constant
+    "is_default_power_level": 50,
 }
 # the bodies of the default functions named above, as they must appear in the source
 DEFAULT_FN_BODY = {
     "default_room_version_id": ("crates/ruma-events/src/room/create.rs",
                                 "fn default_room_version_id() -> RoomVersionId {\n    RoomVersionId::V1\n}"),
     "default_true": ("crates/ruma-common/src/serde.rs", "pub fn default_true() -> bool {\n    true\n}"),
+    "default_power_level": ("crates/ruma-common/src/power_levels.rs", "pub fn default_power_level() -> Int {\n    int!(50)\n}"),
+    "is_default_power_level": ("crates/ruma-events/src/room/power_levels.rs",
+                               "fn is_default_power_level(l: &Int) -> bool {\n    *l == int!(50)\n}"),
+    "NotificationPowerLevels::default": ("crates/ruma-common/src/power_levels.rs",
+                                         "    pub fn new() -> Self {\n        Self { room: default_power_level() }\n    }"),
+    "NotificationPowerLevels::is_default": ("crates/ruma-common/src/power_levels.rs",
+                                            "    pub fn is_default(&self) -> bool {\n        self.room == default_power_level()\n    }"),
+    "deserialize_v1_powerlevel": ("crates/ruma-common/src/serde/strings.rs", "pub fn deserialize_v1_powerlevel<'de, D>(de: D) -> Result<Int, D::Error>"),
 }
 
 
@@ -241,6 +257,12 @@ def resolver(crates=("ruma-events",)):
         if name == "Vec" and len(args) == 1:
             return ("vec", of_type(args[0], ctx))
         if name == "BTreeMap" and len(args) == 2:
+            if S.ty_text(args[0]) == "TimelineEventType":
+                # keys go through TimelineEventType::from: the aliases compiled into the generated enum
+                al = [(a, e.get("ev_type")) for kind, entries in c19.parse_event_enum() if kind in ("MessageLike", "State")
+                      for e in entries if all(c19.cfg_eval(c, feats.get("ruma-events", set())) for c in e["cfgs"])
+                      for a in e["aliases"] if not e["ev_type"].endswith(".*")]
+                return ("mapenum", sorted(set(al)), of_type(args[1], ctx))
             k = of_type(args[0], ctx)
             if k[0] == "str":
                 c = 0
@@ -292,10 +314,27 @@ def resolver(crates=("ruma-events",)):
                 if w not in WITH or S.ty_text(f.ty) != WITH[w][0]:
                     raise Custom("%s.%s: serde(with = %s) on %s" % (it.name, f.name, w, S.ty_text(f.ty)))
                 strict = "default" not in f.serde     # no `default`: a missing member is an error, Option or not
+            dw = f.serde.get("deserialize_with")
+            if dw is not None:
+                dw = dw.replace("crate::serde::", "ruma_common::serde::")
+                if dw not in DESER_WITH:
+                    raise Custom("%s.%s: serde(deserialize_with = %s)" % (it.name, f.name, dw))
+                strict = "default" not in f.serde
             for k in f.serde:
-                if k not in ("rename", "default", "skip_serializing_if", "with"):
+                if k not in ("rename", "default", "skip_serializing_if", "with", "deserialize_with"):
                     raise Custom("%s.%s: serde(%s)" % (it.name, f.name, k))
-            t = WITH[w][1] if w is not None else of_type(f.ty, it)
+            if w is not None:
+                t = WITH[w][1]
+            elif dw is not None:
+                base = of_type(f.ty, it)
+                if DESER_WITH[dw] == "intlax" and base == ("int", -MAXI, MAXI):
+                    t = ("intlax", -MAXI, MAXI)
+                elif DESER_WITH[dw] == "map-intlax" and base[0] in ("map", "mapenum") and base[-1] == ("int", -MAXI, MAXI):
+                    t = base[:-1] + (("intlax", -MAXI, MAXI),)
+                else:
+                    raise Custom("%s.%s: deserialize_with = %s on %s" % (it.name, f.name, dw, S.ty_text(f.ty)))
+            else:
+                t = of_type(f.ty, it)
             wire = f.serde.get("rename", f.name)
             d = f.serde.get("default")
             if d is None:
@@ -312,6 +351,14 @@ def resolver(crates=("ruma-events",)):
             elif sk in SKIP_PRED:
                 p = SKIP_PRED[sk]
                 skind = (p,) if isinstance(p, str) else p
+            elif sk in SKIP_EQ_FN:
+                skind = ("SIfEq", SKIP_EQ_FN[sk])
+            elif sk == "NotificationPowerLevels::is_default" and S.ty_text(f.ty) == "NotificationPowerLevels":
+                # Default for NotificationPowerLevels is { room: 50 } (source-checked above), which prints as
+                # {"room":50}; `default` on the member re-creates exactly that
+                skind = ("SIfEq", {"room": 50})
+                if dk == ("default",):
+                    dk = ("const", {"room": 50})
             else:
                 raise Custom("%s.%s: skip_serializing_if = %s" % (it.name, f.name, sk))
             if t[0] == "enum" and t[2] is not None:
@@ -422,6 +469,8 @@ def coq_json(v):
         return "(JInt (%d)%%Z)" % v
     if isinstance(v, str):
         return "(JStr %s)" % cs(v)
+    if isinstance(v, dict):
+        return "(JObj [%s])" % "; ".join("(%s, %s)" % (cs(k), coq_json(x)) for k, x in sorted(v.items()))
     raise TranslateError("constant %r" % (v,))
 
 
@@ -437,6 +486,10 @@ def coq_ty(t, defs, order):
         return "TBool"
     if k == "int":
         return "(TInt (%d)%%Z (%d)%%Z)" % (t[1], t[2])
+    if k == "intlax":
+        return "(TIntLax (%d)%%Z (%d)%%Z)" % (t[1], t[2])
+    if k == "mapenum":
+        return "(TMapEnum [%s] %s)" % ("; ".join("(%s, %s)" % (cs(a), cs(c)) for a, c in t[1]), coq_ty(t[2], defs, order))
     if k == "any":
         return "TAny"
     if k == "const":
